@@ -29,7 +29,26 @@ def models(text, extra_facts=""):
     return sorted(ms)
 
 
-def optimise(text, traits, inputs="auto", outputs="auto"):
+class DidNotReturn(Exception):
+    """optimize exceeded the per-program time limit of a bounded stand-in"""
+
+
+def optimise(text, traits, inputs="auto", outputs="auto", limit_s=None):
+    """limit_s: give up (DidNotReturn) after that many seconds -- used by the bounded stand-ins so that a changed tree
+    whose rewrite loop no longer terminates is reported with the program it hangs on instead of stalling the check"""
+    if limit_s:
+        import signal
+
+        def _alarm(_sig, _frm):
+            raise DidNotReturn(f"optimize did not return within {limit_s} s")
+
+        old = signal.signal(signal.SIGALRM, _alarm)
+        signal.alarm(int(limit_s))
+        try:
+            return optimise(text, traits, inputs, outputs)
+        finally:
+            signal.alarm(0)
+            signal.signal(signal.SIGALRM, old)
     from ngo.api import optimize
     from ngo.utils.ast import Predicate
     from ngo.utils.globals import auto_detect_input, auto_detect_output
